@@ -1,9 +1,13 @@
 (* C05 model driver: runs the extracted MetaModel at floats on one scenario per input line.
-   Input :  META nd {periodic period sigma width gperiodic expand hardlo hardup lower upper nx}*nd
+   Input :  META nd {kind periodic period sigma width gperiodic expand hardlo hardup lower upper nx}*nd
                  weight hill_width freq gfreq use_grids keep wt bias_temp kb step_zero dumpgrid
-                 nsteps {it rel cont x_1..x_nd}*nsteps
+                 ebmeta equil_steps ntarget target_1..target_ntarget
+                 nevents { S it rel cont x.. | W | R | L | B {lower upper nx}*nd }*nevents
+            kind = 0 scalar (1 component), 1 3-vector, 2 unit vector (3 components), 3 quaternion (4); x.. = all components of
+            all variables; W = the state is written (write_state_data); R = restart (state written, read by a fresh
+            instance); B = restart with rebinGrids and the new boundaries
    Output:  one line; steps separated by " | ", fields of a step by " ; ":
-            S ub energy f_1..f_nd ; H nold nnew {it W c_1..c_nd}* ; O {it W c..}* ; G {nx lower upper}* [; E v* ; D v*] *)
+            S energy f.. ; H nold nnew {it W c..}* ; O noffnew {it W c..}* ; G {nx lower upper}* [; E v* ; D v*] *)
 open Model
 open X_fops
 let rec nat_of_int (n : int) : nat = if n <= 0 then O else S (nat_of_int (n - 1))
@@ -16,7 +20,7 @@ let rec all_indices (nx : int list) : int list list =
     List.concat (List.init (max n 0) (fun i -> List.map (fun t -> i :: t) tails))
 
 let hill_str (h : float hill) =
-  String.concat " " (string_of_int (int_of_z h.h_it) :: hex h.h_W :: List.map hex h.h_c)
+  String.concat " " (string_of_int (int_of_z h.h_it) :: hex h.h_W :: List.map hex (List.concat h.h_c))
 
 let () =
   try
@@ -33,45 +37,70 @@ let () =
          | "META" ->
            let nd = ni () in
            let vg = List.init nd (fun _ ->
+               let kind = (match ni () with 0 -> KScalar | 1 -> KVec3 | 2 -> KUnit3 | _ -> KQuat) in
                let per = nb () in let period = nf () in let sigma = nf () in let width = nf () in
                let gper = nb () in let expand = nb () in let hlo = nb () in let hup = nb () in
                let lower = nf () in let upper = nf () in let nx = ni () in
-               ({ v_periodic = per; v_period = period; v_sigma = sigma; v_width = width; v_gperiodic = gper;
+               ({ v_kind = kind; v_periodic = per; v_period = period; v_sigma = sigma; v_width = width; v_gperiodic = gper;
                   v_expand = expand; v_hard_lo = hlo; v_hard_up = hup },
                 { b_lower = lower; b_upper = upper; b_nx = z_of_int nx })) in
+           let ncomp = List.map (fun (v, _) -> match v.v_kind with KScalar -> 1 | KQuat -> 4 | _ -> 3) vg in
            let weight = nf () in let hw = nf () in let freq = ni () in let gfreq = ni () in
            let ug = nb () in let keep = nb () in let wt = nb () in let bt = nf () in let kb = nf () in
            let sz = nb () in let dump = nb () in
+           (* ebMeta: flag, ebMetaEquilSteps, number of target values, the values in the order of the grid array *)
+           let eb = nb () in let equil = ni () in let nt = ni () in
+           let tvals = Array.init nt (fun _ -> nf ()) in
+           let nxs = List.map (fun (_, b) -> int_of_z b.b_nx) vg in
+           let target (ix : z list) : float =
+             let rec addr nx ix = match nx, ix with
+               | n :: nr, i :: ir -> (int_of_z i) * (List.fold_left ( * ) 1 nr) + addr nr ir
+               | _, _ -> 0 in
+             let a = addr nxs ix in
+             if a >= 0 && a < nt then tvals.(a) else 1.0 in
            let c = { c_vars = List.map fst vg; c_geom0 = List.map snd vg; c_weight = weight; c_hill_width = hw;
                      c_freq = z_of_int freq; c_gfreq = z_of_int gfreq; c_use_grids = ug; c_keep = keep; c_wt = wt;
-                     c_bias_temp = bt; c_kb = kb; c_step_zero = sz } in
-           let nsteps = ni () in
+                     c_bias_temp = bt; c_kb = kb; c_step_zero = sz; c_eb = eb; c_eb_equil = z_of_int equil;
+                     c_eb_target = target } in
+           let nev = ni () in
            let st = ref (init_state fops c) in
            let outs = ref [] in
-           for _ = 1 to nsteps do
-             let it = ni () in let rel = ni () in let cont = nb () in
-             let x = List.init nd (fun _ -> nf ()) in
-             let i = { i_it = z_of_int it; i_rel = z_of_int rel; i_cont = cont; i_x = x } in
-             let (s', (e, f)) = step fops c !st i in
-             st := s';
-             let b = Buffer.create 256 in
-             Buffer.add_string b (Printf.sprintf "S %d %s %s" (if s'.st_ub then 1 else 0) (hex e)
-                                    (String.concat " " (List.map hex f)));
-             Buffer.add_string b (Printf.sprintf " ; H %d %d %s" (List.length s'.st_old) (List.length s'.st_new)
-                                    (String.concat " " (List.map hill_str (s'.st_old @ s'.st_new))));
-             Buffer.add_string b (" ; O " ^ String.concat " " (List.map hill_str s'.st_off));
-             Buffer.add_string b (" ; G " ^ String.concat " " (List.map (fun bd ->
-                 Printf.sprintf "%d %s %s" (int_of_z bd.b_nx) (hex bd.b_lower) (hex bd.b_upper)) s'.st_geom));
-             if dump && ug then begin
-               let idx = all_indices (List.map (fun bd -> int_of_z bd.b_nx) s'.st_geom) in
-               let zidx = List.map (List.map z_of_int) idx in
-               Buffer.add_string b (" ; E " ^ String.concat " " (List.map (fun ix -> hex (grid_energy_at s' ix)) zidx));
-               Buffer.add_string b (" ; D " ^ String.concat " " (List.concat_map (fun ix ->
-                   List.init nd (fun k -> hex (grid_gradient_at s' ix (nat_of_int k)))) zidx))
-             end;
-             outs := Buffer.contents b :: !outs
+           for _ = 1 to nev do
+             match next () with
+             | "W" -> st := save_state fops c !st
+             | "R" -> st := restart_state fops c !st None
+             | "L" -> st := reload_state fops c !st
+             | "B" ->
+               let g' = List.init nd (fun _ ->
+                   let lower = nf () in let upper = nf () in let nx = ni () in
+                   { b_lower = lower; b_upper = upper; b_nx = z_of_int nx }) in
+               st := restart_state fops c !st (Some g')
+             | _ ->
+               let it = ni () in let rel = ni () in let cont = nb () in
+               let x = List.map (fun n -> List.init n (fun _ -> nf ())) ncomp in
+               let i = { i_it = z_of_int it; i_rel = z_of_int rel; i_cont = cont; i_x = x } in
+               let (s', (e, f)) = step fops c !st i in
+               st := s';
+               let b = Buffer.create 256 in
+               Buffer.add_string b (Printf.sprintf "S %s %s" (hex e) (String.concat " " (List.map hex (List.concat f))));
+               Buffer.add_string b (Printf.sprintf " ; H %d %d %s" (List.length s'.st_old) (List.length s'.st_new)
+                                      (String.concat " " (List.map hill_str (s'.st_old @ s'.st_new))));
+               Buffer.add_string b (Printf.sprintf " ; O %d %s" (List.length s'.st_off_new)
+                                      (String.concat " " (List.map hill_str (s'.st_off_old @ s'.st_off_new))));
+               Buffer.add_string b (" ; G " ^ String.concat " " (List.map (fun bd ->
+                   Printf.sprintf "%d %s %s" (int_of_z bd.b_nx) (hex bd.b_lower) (hex bd.b_upper)) s'.st_geom));
+               if dump && ug then begin
+                 let idx = all_indices (List.map (fun bd -> int_of_z bd.b_nx) s'.st_geom) in
+                 let zidx = List.map (List.map z_of_int) idx in
+                 Buffer.add_string b (" ; E " ^ String.concat " " (List.map (fun ix -> hex (grid_energy_at s' ix)) zidx));
+                 Buffer.add_string b (" ; D " ^ String.concat " " (List.concat_map (fun ix ->
+                     List.init nd (fun k -> hex (grid_gradient_at s' ix (nat_of_int k)))) zidx))
+               end;
+               outs := Buffer.contents b :: !outs
            done;
            print_string (String.concat " | " (List.rev !outs));
+           (* the hills trajectory buffer of the last instance *)
+           print_string (" || T " ^ String.concat " " (List.map hill_str (!st).st_traj));
            print_newline ()
          | _ -> Printf.printf "?\n")
       end
